@@ -416,3 +416,548 @@ Print Assumptions xmr_b58_accepts_iff.
 Theorem xmr_b58_errors : forall s e, Codecs.xmr_decode s = Err e -> e = ValueError.
 Proof. exact XmrConstsOk.xmr_decode_err. Qed.
 Print Assumptions xmr_b58_errors.
+
+(* ############################################################################################################
+   PART 2 -- ADDRESS-LEVEL DECODERS (every *AddrDecoder.DecodeAddr modelled in Model/AddrB58.v, AddrText.v,
+   AddrXmr.v, AddrAdaShelley.v, AddrAdaByron.v).  Proofs: Lemmas/AddrAccept{B58,Text,B32,Xmr,Ada}.v.
+
+   For each decoder:  [<fam>_decode_accepts_iff]  decode params s = Ok payload <-> explicit description of s
+   (codec layer result, prefix / version / header, lengths, checksum equation, key validity), and the corollary
+   the property wants,  [<fam>_accepted_is_encoding]:  every accepted string IS the encoder's text for the
+   returned payload, up to the format's case rule --
+     Base58 / Base58Check / SS58 / Monero:  exact equality (no case rule);
+     Bech32 / SegWit / CashAddr:  the encoder yields py_lower s, and s is never mixed-case (all-upper accepted);
+     hex formats (ICX, NEAR, SUI, APTOS, ETH without EIP-55):  any case mix accepted, encoder writes lower case;
+     ETH with EIP-55:  exact;  Base32 formats:  upper case only (lower case for the Filecoin / Nano alphabets).
+   Where the payload is a hash the "encoder" is the text layer applied to the returned payload (no hash
+   pre-image is claimed); where it is a key it is the real address encoder.
+   Where the corollary is FALSE of the faithful model:  [..._refuted] (concrete witness, kernel-evaluated) and
+   [..._partial] (what holds, with the exact extra condition).  The refuted ones are library defects, confirmed on
+   /repo by harness/props/C10.py:  C10-XMR-INTEG-LEN, C10-P2WPKH-LEN, C10-ALGO-NONCANON, C10-FIL-NONCANON,
+   C10-NANO-PADBITS, C10-BYRON-TRAILING (and the Aptos zero-padding laxness, which its standard allows).
+   Hashes, key validity, cbor2 parsing are oracles (universally quantified; refutations exhibit an instance).
+   ############################################################################################################ *)
+From Coq Require Import ZArith.
+From BU Require Import Gen.AddrConsts Gen.AddrTextConsts Gen.ConstsCardmon Model.AddrUtils Model.AddrB58 Model.AddrText
+  Model.Base32 Model.CborEnc Model.AddrAdaShelley.
+From BU Require Model.AddrXmr Model.AddrAdaByron Model.EdLib.
+From BU Require Lemmas.AddrB58 Lemmas.AddrInst Lemmas.Base32 Lemmas.CborEnc
+  Lemmas.AddrAcceptB58 Lemmas.AddrAcceptText Lemmas.AddrAcceptB32 Lemmas.AddrAcceptXmr Lemmas.AddrAcceptAda.
+
+Notation b58check_decode sha256 alph := (Base58.check_decode alph b58_radix b58_cklen sha256).
+Notation b58check_encode sha256 alph := (Base58.check_encode alph b58_radix b58_cklen sha256).
+Notation b58_decode := (Base58.decode b58_alph_btc b58_radix).
+Notation good_alph := Lemmas.AddrB58.good_alph.          (* the Bitcoin or the Ripple alphabet *)
+
+(* ================================================================== Base58Check: prefix ++ digest *)
+Theorem p2pkh_decode_accepts_iff : forall (sha256 : list N -> list N) alph net_ver s d,
+  (p2pkh_decode sha256 alph net_ver s = Ok d <->
+   b58check_decode sha256 alph s = Ok (net_ver ++ d) /\ length d = hash160_len) /\
+  (good_alph alph -> p2pkh_decode sha256 alph net_ver s = Ok d ->
+   s = fam_a_encode sha256 alph net_ver d /\ length d = hash160_len).          (* accepted = the encoder's text *)
+Proof.
+  intros sha alph nv s d. split; [exact (Lemmas.AddrAcceptB58.p2pkh_decode_accepts_iff sha alph nv s d)|
+                                  exact (Lemmas.AddrAcceptB58.p2pkh_accepted_is_encoding sha alph nv s d)].
+Qed.
+Print Assumptions p2pkh_decode_accepts_iff.
+
+(* premises satisfiable (constant-zero "SHA-256") *)
+Example p2pkh_accepted_example : exists sha256 s d, good_alph b58_alph_btc /\
+  p2pkh_decode sha256 b58_alph_btc [0] s = Ok d /\ d = repeat 7 20.
+Proof.
+  exists (fun _ => repeat 0 32), (fam_a_encode (fun _ => repeat 0 32) b58_alph_btc [0] (repeat 7 20)), (repeat 7 20).
+  split; [left; reflexivity|]. split; [vm_compute; reflexivity|reflexivity].
+Qed.
+Print Assumptions p2pkh_accepted_example.
+
+(* P2SH, XRP, XTZ: the same pipeline under their alphabet / prefix / digest length *)
+Theorem p2sh_xrp_xtz_decode_accepts_iff : forall (sha256 : list N -> list N) prefix s d,
+  (p2sh_decode sha256 prefix s = Ok d <->
+   b58check_decode sha256 b58_alph_btc s = Ok (prefix ++ d) /\ length d = hash160_len) /\
+  (xrp_decode sha256 s = Ok d <->
+   b58check_decode sha256 b58_alph_xrp s = Ok (xrp_net_ver ++ d) /\ length d = hash160_len) /\
+  (xtz_decode sha256 prefix s = Ok d <->
+   b58check_decode sha256 b58_alph_btc s = Ok (prefix ++ d) /\ length d = blake2b160_len) /\
+  (xtz_decode sha256 prefix s = Ok d -> s = fam_a_encode sha256 b58_alph_btc prefix d).
+Proof.
+  intros sha p s d. split; [exact (Lemmas.AddrAcceptB58.p2sh_decode_accepts_iff sha p s d)|].
+  split; [exact (Lemmas.AddrAcceptB58.xrp_decode_accepts_iff sha s d)|].
+  split; [exact (Lemmas.AddrAcceptB58.xtz_decode_accepts_iff sha p s d)|exact (Lemmas.AddrAcceptB58.xtz_accepted_is_encoding sha p s d)].
+Qed.
+Print Assumptions p2sh_xrp_xtz_decode_accepts_iff.
+
+(* NEO: the expected version must be ONE byte *)
+Theorem neo_decode_accepts_iff : forall (sha256 : list N -> list N) ver s d,
+  (neo_decode sha256 ver s = Ok d <->
+   exists v0, ver = [v0] /\ b58check_decode sha256 b58_alph_btc s = Ok (v0 :: d) /\ length d = hash160_len) /\
+  (neo_decode sha256 ver s = Ok d -> s = b58check_encode sha256 b58_alph_btc (ver ++ d) /\ length ver = 1%nat).
+Proof.
+  intros sha v s d. split; [exact (Lemmas.AddrAcceptB58.neo_decode_accepts_iff sha v s d)|
+                            exact (Lemmas.AddrAcceptB58.neo_accepted_is_encoding sha v s d)].
+Qed.
+Print Assumptions neo_decode_accepts_iff.
+
+(* ================================================================== plain Base58 with an own checksum *)
+Theorem eos_decode_accepts_iff : forall (ripemd160 : list N -> list N) (valid_pub : list N -> bool) s pub,
+  (eos_decode ripemd160 valid_pub s = Ok pub <->
+   exists a, s = eos_prefix ++ a /\ b58_decode a = Ok (pub ++ eos_checksum ripemd160 pub) /\
+             length pub = secp_compr_len /\ length (eos_checksum ripemd160 pub) = eos_cklen /\ valid_pub pub = true) /\
+  (eos_decode ripemd160 valid_pub s = Ok pub ->
+   s = eos_encode ripemd160 pub /\ valid_pub pub = true /\ length pub = secp_compr_len).
+Proof.
+  intros rip vp s pub. split; [exact (Lemmas.AddrAcceptB58.eos_decode_accepts_iff rip vp s pub)|
+                               exact (Lemmas.AddrAcceptB58.eos_accepted_is_encoding rip vp s pub)].
+Qed.
+Print Assumptions eos_decode_accepts_iff.
+
+Theorem ergo_decode_accepts_iff : forall (blake2b : nat -> list N -> list N) (valid_pub : list N -> bool) net s pub,
+  (ergo_decode blake2b valid_pub net s = Ok pub <->
+   b58_decode s = Ok ((ergo_prefix net ++ pub) ++ ergo_checksum blake2b (ergo_prefix net ++ pub)) /\
+   length pub = secp_compr_len /\ length (ergo_checksum blake2b (ergo_prefix net ++ pub)) = ergo_cklen /\
+   valid_pub pub = true) /\
+  (ergo_decode blake2b valid_pub net s = Ok pub ->
+   s = ergo_encode blake2b net pub /\ valid_pub pub = true /\ length pub = secp_compr_len).
+Proof.
+  intros b vp net s pub. split; [exact (Lemmas.AddrAcceptB58.ergo_decode_accepts_iff b vp net s pub)|
+                                 exact (Lemmas.AddrAcceptB58.ergo_accepted_is_encoding b vp net s pub)].
+Qed.
+Print Assumptions ergo_decode_accepts_iff.
+
+Theorem sol_decode_accepts_iff : forall (valid_pub : list N -> bool) s d,
+  (sol_decode valid_pub s = Ok d <->
+   b58_decode s = Ok d /\ length d = (ed25519_compr_len - 1)%nat /\ valid_pub d = true) /\
+  (sol_decode valid_pub s = Ok d -> s = sol_encode d /\ valid_pub d = true).
+Proof.
+  intros vp s d. split; [exact (Lemmas.AddrAcceptB58.sol_decode_accepts_iff vp s d)|
+                         exact (Lemmas.AddrAcceptB58.sol_accepted_is_encoding vp s d)].
+Qed.
+Print Assumptions sol_decode_accepts_iff.
+
+(* ================================================================== hex formats *)
+(* Ethereum, both modes (skip = true: no EIP-55 check) *)
+Theorem eth_addr_decode_accepts_iff : forall (keccak256 : list N -> list N) skip s d,
+  (eth_decode keccak256 skip s = Ok d <->
+   exists a, s = eth_prefix ++ a /\ length a = eth_addr_len /\ forallb is_hex_char a = true /\
+             (skip = false -> eth_checksum_encode keccak256 a = a) /\ from_hex a = Ok d) /\
+  ((forall x, length (keccak256 x) = 32%nat) -> (forall x, bytes_ok (keccak256 x)) ->
+   eth_decode keccak256 skip s = Ok d ->
+   length d = 20%nat /\ bytes_ok d /\
+   exists a, s = eth_prefix ++ a /\ map ascii_lower a = to_hex d /\
+             (skip = false -> a = eth_checksum_encode keccak256 (to_hex d))).
+Proof.
+  intros kec skip s d. split; [exact (Lemmas.AddrAcceptB58.eth_decode_accepts_iff_gen kec skip s d)|
+                               exact (Lemmas.AddrAcceptB58.eth_accepted_is_encoding kec skip s d)].
+Qed.
+Print Assumptions eth_addr_decode_accepts_iff.
+
+Theorem trx_decode_accepts_iff : forall (sha256 keccak256 : list N -> list N) s d,
+  (trx_decode sha256 keccak256 s = Ok d <->
+   b58check_decode sha256 b58_alph_btc s = Ok (trx_prefix ++ d) /\ length d = Nat.div eth_addr_len 2) /\
+  (trx_decode sha256 keccak256 s = Ok d ->
+   s = b58check_encode sha256 b58_alph_btc (trx_prefix ++ d) /\ length d = 20%nat).
+Proof.
+  intros sha kec s d. split; [exact (Lemmas.AddrAcceptB58.trx_decode_accepts_iff sha kec s d)|
+                              exact (Lemmas.AddrAcceptB58.trx_accepted_is_encoding sha kec s d)].
+Qed.
+Print Assumptions trx_decode_accepts_iff.
+
+Theorem icx_near_sui_decode_accepts_iff : forall (valid_pub : list N -> bool) s d,
+  (icx_decode s = Ok d <-> exists a, s = icx_prefix ++ a /\ from_hex a = Ok d /\ length d = icx_hash_len) /\
+  (near_decode valid_pub s = Ok d <->
+   from_hex s = Ok d /\ length d = (ed25519_compr_len - 1)%nat /\ valid_pub d = true) /\
+  (sui_decode s = Ok d <-> exists a, s = sui_prefix ++ a /\ length a = (blake2b256_len * 2)%nat /\ from_hex a = Ok d).
+Proof.
+  intros vp s d. split; [exact (Lemmas.AddrAcceptB58.icx_decode_accepts_iff s d)|].
+  split; [exact (Lemmas.AddrAcceptB58.near_decode_accepts_iff vp s d)|exact (Lemmas.AddrAcceptB58.sui_decode_accepts_iff s d)].
+Qed.
+Print Assumptions icx_near_sui_decode_accepts_iff.
+
+(* hex formats: any case mix is accepted, the encoder writes lower case *)
+Theorem icx_near_sui_accepted_is_encoding : forall (valid_pub : list N -> bool) s d,
+  (icx_decode s = Ok d ->
+   exists a, s = icx_prefix ++ a /\ map ascii_lower a = to_hex d /\ length d = icx_hash_len /\ bytes_ok d) /\
+  (near_decode valid_pub s = Ok d ->
+   map ascii_lower s = near_encode d /\ valid_pub d = true /\ length d = (ed25519_compr_len - 1)%nat) /\
+  (sui_decode s = Ok d ->
+   exists a, s = sui_prefix ++ a /\ map ascii_lower a = to_hex d /\ length d = blake2b256_len /\ bytes_ok d).
+Proof.
+  intros vp s d. split; [exact (Lemmas.AddrAcceptB58.icx_accepted_is_encoding s d)|].
+  split; [exact (Lemmas.AddrAcceptB58.near_accepted_is_encoding vp s d)|exact (Lemmas.AddrAcceptB58.sui_accepted_is_encoding s d)].
+Qed.
+Print Assumptions icx_near_sui_accepted_is_encoding.
+
+(* Aptos: any number of leading zeros may be missing *)
+Theorem aptos_decode_accepts_iff : forall s d,
+  (aptos_decode s = Ok d <->
+   exists a, s = aptos_prefix ++ a /\ (length a <= sha3_256_len * 2)%nat /\
+             from_hex (repeat 48 (sha3_256_len * 2 - length a) ++ a) = Ok d) /\
+  (aptos_decode s = Ok d ->                                                         (* aptos_accepted_partial *)
+   exists a, s = aptos_prefix ++ a /\ (length a <= sha3_256_len * 2)%nat /\
+     map ascii_lower (repeat 48 (sha3_256_len * 2 - length a) ++ a) = to_hex d /\ length d = sha3_256_len /\ bytes_ok d).
+Proof.
+  intros s d. split; [exact (Lemmas.AddrAcceptB58.aptos_decode_accepts_iff s d)|exact (Lemmas.AddrAcceptB58.aptos_accepted_partial s d)].
+Qed.
+Print Assumptions aptos_decode_accepts_iff.
+
+(* full statement (accepted => the encoder's output with or without zero trimming, up to case): FALSE -- "0x0" *)
+Theorem aptos_canonical_refuted : exists s d, aptos_decode s = Ok d /\ map ascii_lower s = s /\
+  forall trim : bool, s <> aptos_prefix ++ (if trim then lstrip 48 (to_hex d) else to_hex d).
+Proof. exact Lemmas.AddrAcceptB58.aptos_canonical_refuted. Qed.
+Print Assumptions aptos_canonical_refuted.
+
+(* ================================================================== Bech32 families (on the codec models above) *)
+Theorem atom_avax_decode_accepts_iff : forall prefix hrp s d,
+  (atom_decode bech32_decode hrp s = Ok d <-> bech32_decode hrp s = Ok d /\ length d = hash160_len) /\
+  (atom_decode bech32_decode hrp s = Ok d ->
+   bech32_encode hrp d = Ok (py_lower s) /\ is_string_mixed s = false /\ length d = hash160_len) /\
+  (avax_decode bech32_decode prefix hrp s = Ok d <->
+   exists a, s = prefix ++ a /\ bech32_decode hrp a = Ok d /\ length d = hash160_len) /\
+  (avax_decode bech32_decode prefix hrp s = Ok d ->
+   exists a, s = prefix ++ a /\ bech32_encode hrp d = Ok (py_lower a) /\ length d = hash160_len).
+Proof.
+  intros p hrp s d. split; [exact (Lemmas.AddrAcceptText.atom_accepts_iff bech32_decode hrp s d)|].
+  split; [exact (Lemmas.AddrAcceptText.atom_accepted_is_encoding hrp s d)|].
+  split; [exact (Lemmas.AddrAcceptText.avax_accepts_iff bech32_decode p hrp s d)|exact (Lemmas.AddrAcceptText.avax_accepted_is_encoding p hrp s d)].
+Qed.
+Print Assumptions atom_avax_decode_accepts_iff.
+
+Theorem egld_decode_accepts_iff : forall (valid_pub : N -> list N -> bool) s d,
+  (egld_decode valid_pub bech32_decode s = Ok d <->
+   bech32_decode egld_hrp s = Ok d /\ length d = (ed25519_compr_len - 1)%nat /\ valid_pub 2 d = true) /\
+  (egld_decode valid_pub bech32_decode s = Ok d ->
+   egld_encode bech32_encode d = Ok (py_lower s) /\ valid_pub 2 d = true /\ length d = (ed25519_compr_len - 1)%nat).
+Proof.
+  intros vp s d. split; [exact (Lemmas.AddrAcceptText.egld_accepts_iff vp bech32_decode s d)|
+                         exact (Lemmas.AddrAcceptText.egld_accepted_is_encoding vp s d)].
+Qed.
+Print Assumptions egld_decode_accepts_iff.
+
+(* Injective, Zilliqa; Okex / One (decode through EthAddrDecoder without EIP-55) *)
+Theorem inj_zil_okex_one_decode_accepts_iff : forall (keccak256 : list N -> list N) hrp s d,
+  (inj_decode bech32_decode s = Ok d <-> bech32_decode inj_hrp s = Ok d /\ length d = Nat.div eth_addr_len 2) /\
+  (zil_decode bech32_decode s = Ok d <-> bech32_decode zil_hrp s = Ok d /\ length d = zil_hash_len) /\
+  (ethb32_decode keccak256 bech32_decode hrp s = Ok d <-> bech32_decode hrp s = Ok d /\ length d = 20%nat) /\
+  (inj_decode bech32_decode s = Ok d -> bech32_encode inj_hrp d = Ok (py_lower s) /\ length d = 20%nat) /\
+  (zil_decode bech32_decode s = Ok d -> bech32_encode zil_hrp d = Ok (py_lower s) /\ length d = zil_hash_len) /\
+  (ethb32_decode keccak256 bech32_decode hrp s = Ok d -> bech32_encode hrp d = Ok (py_lower s) /\ length d = 20%nat).
+Proof.
+  intros kec hrp s d. split; [exact (Lemmas.AddrAcceptText.inj_accepts_iff bech32_decode s d)|].
+  split; [exact (Lemmas.AddrAcceptText.zil_accepts_iff bech32_decode s d)|].
+  split; [exact (Lemmas.AddrAcceptText.ethb32_accepts_iff_concrete kec hrp s d)|].
+  split; [exact (Lemmas.AddrAcceptText.inj_accepted_is_encoding s d)|].
+  split; [exact (Lemmas.AddrAcceptText.zil_accepted_is_encoding s d)|exact (Lemmas.AddrAcceptText.ethb32_accepted_is_encoding kec hrp s d)].
+Qed.
+Print Assumptions inj_zil_okex_one_decode_accepts_iff.
+
+(* ================================================================== SegWit / CashAddr addresses *)
+(* P2WPKH: version 0 only -- the program length is NOT examined.  What holds (p2wpkh_accepted_partial): the string
+   is the SegWit encoder's text and the program has 20 or 32 bytes; with the missing check, 20. *)
+Theorem p2wpkh_decode_accepts_iff : forall hrp s d,
+  (p2wpkh_decode segwit_decode hrp s = Ok d <-> segwit_decode hrp s = Ok (p2wpkh_wit_ver, d)) /\
+  (p2wpkh_decode segwit_decode hrp s = Ok d ->
+   segwit_encode hrp p2wpkh_wit_ver d = Ok (py_lower s) /\ In (length d) segwit_v0_lens) /\
+  (p2wpkh_decode segwit_decode hrp s = Ok d -> length d <> 32%nat ->
+   segwit_encode hrp p2wpkh_wit_ver d = Ok (py_lower s) /\ length d = hash160_len).
+Proof.
+  intros hrp s d. split; [exact (Lemmas.AddrAcceptText.p2wpkh_accepts_iff segwit_decode hrp s d)|].
+  split; [exact (Lemmas.AddrAcceptText.p2wpkh_accepted_partial hrp s d)|exact (Lemmas.AddrAcceptText.p2wpkh_accepted_is_encoding_20 hrp s d)].
+Qed.
+Print Assumptions p2wpkh_decode_accepts_iff.
+
+(* Full statement  p2wpkh_decode hrp s = Ok d -> length d = 20  (a P2WPKH address carries a HASH160) is FALSE:
+   every P2WSH address (version 0, 32-byte program) is accepted and 32 bytes are returned.
+   Witness bc1qqqqsyqcyq5rqwzqfpg9scrgwpugpzysnzs23v9ccrydpk8qarc0szrtjt7 ; finding C10-P2WPKH-LEN. *)
+Theorem p2wpkh_length_refuted : exists hrp s d, p2wpkh_decode segwit_decode hrp s = Ok d /\ length d = 32%nat.
+Proof. exact Lemmas.AddrAcceptText.p2wpkh_length_refuted. Qed.
+Print Assumptions p2wpkh_length_refuted.
+
+Example p2wpkh_accepted_example : exists d,
+  p2wpkh_decode segwit_decode [98; 99] [66; 67; 49; 81; 87; 53; 48; 56; 68; 54; 81; 69; 74; 88; 84; 68; 71; 52; 89; 53; 82;
+    51; 90; 65; 82; 86; 65; 82; 89; 48; 67; 53; 88; 87; 55; 75; 86; 56; 70; 51; 84; 52] = Ok d /\ length d <> 32%nat.
+Proof. eexists. split; [vm_compute; reflexivity|vm_compute; discriminate]. Qed.   (* BC1QW508D6QEJXTDG4Y5R3ZARVARY0C5XW7KV8F3T4 *)
+Print Assumptions p2wpkh_accepted_example.
+
+(* P2TR: version 1 and 32 bytes (whether they are the x coordinate of a curve point is not examined by the
+   decoder, nor by BIP-350 address decoding); Bitcoin Cash P2PKH / P2SH: CashAddr version byte and 20 bytes *)
+Theorem p2tr_bch_decode_accepts_iff : forall hrp net_ver s d,
+  (p2tr_decode segwit_decode hrp s = Ok d <->
+   segwit_decode hrp s = Ok (p2tr_wit_ver, d) /\ length d = (secp_compr_len - 1)%nat) /\
+  (p2tr_decode segwit_decode hrp s = Ok d -> segwit_encode hrp p2tr_wit_ver d = Ok (py_lower s) /\ length d = 32%nat) /\
+  (bch_decode cash_decode hrp net_ver s = Ok d <-> cash_decode hrp s = Ok (net_ver, d) /\ length d = hash160_len) /\
+  (bch_decode cash_decode hrp net_ver s = Ok d ->
+   cash_encode hrp net_ver d = Ok (py_lower s) /\ length d = hash160_len /\ length net_ver = 1%nat).
+Proof.
+  intros hrp nv s d. split; [exact (Lemmas.AddrAcceptText.p2tr_accepts_iff segwit_decode hrp s d)|].
+  split; [exact (Lemmas.AddrAcceptText.p2tr_accepted_is_encoding hrp s d)|].
+  split; [exact (Lemmas.AddrAcceptText.bch_accepts_iff cash_decode hrp nv s d)|exact (Lemmas.AddrAcceptText.bch_accepted_is_encoding hrp nv s d)].
+Qed.
+Print Assumptions p2tr_bch_decode_accepts_iff.
+
+(* ================================================================== Substrate (SS58): accepted = encoder output *)
+Theorem substrate_decode_accepts_iff : forall (blake2b512 : list N -> list N) (valid_pub : N -> list N -> bool),
+  (forall x, length (blake2b512 x) = 64%nat) -> (forall x, bytes_ok (blake2b512 x)) ->
+  forall curve fmt s d,
+  substrate_decode valid_pub (Lemmas.AddrInst.ss58_dec blake2b512) curve fmt s = Ok d <->
+  substrate_encode (Lemmas.AddrInst.ss58_enc blake2b512) fmt d = Ok s /\ bytes_ok d /\ valid_pub curve d = true.
+Proof. exact Lemmas.AddrAcceptText.substrate_accepts_iff_concrete. Qed.
+Print Assumptions substrate_decode_accepts_iff.
+(* ================================================================== Base32 formats *)
+Notation b32_dec := Lemmas.AddrInst.b32_dec.               (* Base32Decoder.Decode on the C11 codec model *)
+Notation b32_enc_nopad := Lemmas.AddrInst.b32_enc_nopad.   (* Base32Encoder.EncodeNoPadding *)
+Notation b32_alph_ok := Lemmas.Base32.custom_ok.           (* None, or 32 distinct symbols without '=' *)
+Notation b32_eff := Lemmas.Base32.eff.
+Notation zero_hash := Lemmas.AddrAcceptB32.zero_hash.      (* fun _ => 32 zero bytes *)
+Notation zero_blake := Lemmas.AddrAcceptB32.zero_blake.    (* fun n _ => n zero bytes *)
+Notation any_valid := Lemmas.AddrAcceptB32.any_valid.      (* every key valid *)
+
+(* what Base32Decoder.Decode accepts: symbols of the alphabet, then a run of '=' (which with the padding the
+   library adds has one of the lengths 0,1,3,4,6 and completes a multiple of 8), and the symbols regroup to the
+   returned bytes with [bits] < 5 left-over bits of ARBITRARY value [pend] *)
+Theorem base32_decode_accepted_shape : forall al s d, b32_alph_ok al -> b32_dec al s = Ok d ->
+  exists ds k bits pend, s = map (sym32 (b32_eff al)) ds ++ repeat rfc_pad k /\ Radix.digits_ok 32 ds /\
+    (exists j : nat, In (k + j)%nat [0; 1; 3; 4; 6]%nat /\ ((length ds + (k + j)) mod 8 = 0)%nat) /\ bytes_ok d /\
+    bits < 5 /\ pend < 2 ^ bits /\ 5 * N.of_nat (length ds) = 8 * N.of_nat (length d) + bits /\
+    Radix.from_be 32 ds = be_to_int d * 2 ^ bits + pend.
+Proof. exact Lemmas.AddrAcceptB32.b32_dec_inv. Qed.
+Print Assumptions base32_decode_accepted_shape.
+
+(* canonical form: no '=' and zero left-over bits => the string is EncodeNoPadding of the bytes; byte counts that
+   are multiples of 5 leave no spare bits and no room for '=': there, accepted = encoder output *)
+Theorem base32_canonical_form : forall al,  b32_alph_ok al ->
+  (forall ds d bits, Radix.digits_ok 32 ds -> bytes_ok d -> bits < 5 ->
+     5 * N.of_nat (length ds) = 8 * N.of_nat (length d) + bits -> Radix.from_be 32 ds = be_to_int d * 2 ^ bits ->
+     b32_enc_nopad al d = Ok (map (sym32 (b32_eff al)) ds)) /\
+  (forall s d, b32_dec al s = Ok d -> (length d mod 5 = 0)%nat -> b32_enc_nopad al d = Ok s).
+Proof.
+  intros al Ha. split; [intros ds d bits; exact (Lemmas.AddrAcceptB32.b32_dec_canonical al ds d bits Ha)|
+                        intros s d; exact (Lemmas.AddrAcceptB32.b32_dec_canonical_exact al s d Ha)].
+Qed.
+Print Assumptions base32_canonical_form.
+
+(* Algorand.  36 bytes are 58 symbols with TWO spare bits that base64.b32decode does not examine, and a
+   written-out '=' padding is accepted as well: what holds is algo_accepted_partial (second clause) *)
+Theorem algo_decode_accepts_iff : forall (sha512_256 : list N -> list N) (valid_pub : N -> list N -> bool) s pub,
+  (algo_decode sha512_256 valid_pub b32_dec s = Ok pub <->
+   b32_dec None s = Ok (pub ++ algo_checksum sha512_256 pub) /\ length pub = (ed25519_compr_len - 1)%nat /\
+   length (algo_checksum sha512_256 pub) = algo_cklen /\ valid_pub 2 pub = true) /\
+  (algo_decode sha512_256 valid_pub b32_dec s = Ok pub ->
+   valid_pub 2 pub = true /\ length pub = (ed25519_compr_len - 1)%nat /\
+   exists ds k pend, s = map (sym32 rfc_alphabet) ds ++ repeat rfc_pad k /\ length ds = 58%nat /\ Radix.digits_ok 32 ds /\
+     pend < 4 /\ Radix.from_be 32 ds = be_to_int (pub ++ algo_checksum sha512_256 pub) * 4 + pend /\
+     (k = 0%nat -> pend = 0 -> algo_encode sha512_256 b32_enc_nopad pub = Ok s)).
+Proof.
+  intros h vp s pub. split; [exact (Lemmas.AddrAcceptB32.algo_accepts_iff h vp b32_dec s pub)|
+                             exact (Lemmas.AddrAcceptB32.algo_accepted_partial h vp s pub)].
+Qed.
+Print Assumptions algo_decode_accepts_iff.
+
+(* Full statement (accepted => algo_encode pub = Ok s) is FALSE.  Instance with the constant-zero hash: the address
+   "AAA...A" (58), and the accepted "AAA...AB" and "AAA...A======"; the same variants of real addresses are
+   accepted by the library (finding C10-ALGO-NONCANON). *)
+Theorem algo_canonical_refuted : exists s1 s2 s3 pub,
+  algo_encode zero_hash b32_enc_nopad pub = Ok s1 /\ s2 <> s1 /\ s3 <> s1 /\
+  algo_decode zero_hash any_valid b32_dec s1 = Ok pub /\
+  algo_decode zero_hash any_valid b32_dec s2 = Ok pub /\
+  algo_decode zero_hash any_valid b32_dec s3 = Ok pub.
+Proof. exact Lemmas.AddrAcceptB32.algo_canonical_refuted. Qed.
+Print Assumptions algo_canonical_refuted.
+
+(* Stellar: 35 bytes = 56 symbols, no spare bits: accepted = the encoder's output for the returned key *)
+Theorem xlm_decode_accepts_iff : forall (valid_pub : N -> list N -> bool) (crc16_xmodem : list N -> list N) t s pub,
+  (xlm_decode valid_pub crc16_xmodem b32_dec t s = Ok pub <->
+   b32_dec None s = Ok ((t :: pub) ++ xlm_checksum crc16_xmodem (t :: pub)) /\
+   length pub = (ed25519_compr_len - 1)%nat /\ length (xlm_checksum crc16_xmodem (t :: pub)) = xlm_cklen /\
+   valid_pub 2 pub = true) /\
+  (xlm_decode valid_pub crc16_xmodem b32_dec t s = Ok pub ->
+   xlm_encode crc16_xmodem b32_enc_nopad t pub = Ok s /\ valid_pub 2 pub = true /\ length pub = (ed25519_compr_len - 1)%nat).
+Proof.
+  intros vp crc t s pub. split; [exact (Lemmas.AddrAcceptB32.xlm_accepts_iff vp crc b32_dec t s pub)|
+                                 exact (Lemmas.AddrAcceptB32.xlm_accepted_is_encoding vp crc t s pub)].
+Qed.
+Print Assumptions xlm_decode_accepts_iff.
+
+(* Filecoin: 24 bytes are 39 symbols with THREE spare bits; a trailing '=' is accepted too *)
+Theorem fil_decode_accepts_iff : forall (blake2b : nat -> list N -> list N) s h,
+  (fil_decode blake2b b32_dec s = Ok h <->
+   exists body, s = fil_prefix ++ (48 + fil_secp_type) :: body /\
+     b32_dec (Some fil_alphabet) body = Ok (h ++ fil_checksum blake2b fil_secp_type h) /\
+     length h = blake2b160_len /\ length (fil_checksum blake2b fil_secp_type h) = blake2b32_len) /\
+  (fil_decode blake2b b32_dec s = Ok h ->
+   length h = blake2b160_len /\
+   exists ds k pend, s = fil_prefix ++ (48 + fil_secp_type) :: map (sym32 fil_alphabet) ds ++ repeat rfc_pad k /\
+     length ds = 39%nat /\ Radix.digits_ok 32 ds /\ pend < 8 /\
+     Radix.from_be 32 ds = be_to_int (h ++ fil_checksum blake2b fil_secp_type h) * 8 + pend /\
+     (k = 0%nat -> pend = 0 ->
+      b32_enc_nopad (Some fil_alphabet) (h ++ fil_checksum blake2b fil_secp_type h) = Ok (map (sym32 fil_alphabet) ds))).
+Proof.
+  intros b s h. split; [exact (Lemmas.AddrAcceptB32.fil_accepts_iff b b32_dec s h)|exact (Lemmas.AddrAcceptB32.fil_accepted_partial b s h)].
+Qed.
+Print Assumptions fil_decode_accepts_iff.
+
+(* "f1aaa...a" (39) is the address; "f1aaa...ah" and "f1aaa...a=" are accepted (finding C10-FIL-NONCANON) *)
+Theorem fil_canonical_refuted : exists s1 s2 s3 pub_u,
+  fil_encode zero_blake b32_enc_nopad pub_u = Ok s1 /\ s2 <> s1 /\ s3 <> s1 /\
+  fil_decode zero_blake b32_dec s1 = Ok (zero_blake blake2b160_len pub_u) /\
+  fil_decode zero_blake b32_dec s2 = Ok (zero_blake blake2b160_len pub_u) /\
+  fil_decode zero_blake b32_dec s3 = Ok (zero_blake blake2b160_len pub_u).
+Proof. exact Lemmas.AddrAcceptB32.fil_canonical_refuted. Qed.
+Print Assumptions fil_canonical_refuted.
+
+(* Nano: 40 bytes = 64 symbols, no spare bits -- but [pad], the bytes in front of the key, is never compared with
+   the three zero bytes the encoder puts there; with that extra condition accepted = encoder output *)
+Theorem nano_decode_accepts_iff : forall (blake2b : nat -> list N -> list N) (valid_pub : N -> list N -> bool) s pub,
+  (nano_decode blake2b valid_pub b32_dec s = Ok pub <->
+   exists a pad, s = nano_prefix ++ a /\
+     b32_dec (Some nano_alphabet) (nano_pad_enc ++ a) = Ok (pad ++ pub ++ nano_checksum blake2b pub) /\
+     length pad = length nano_pad_dec /\ length pub = (ed25519_compr_len - 1)%nat /\
+     length (nano_checksum blake2b pub) = blake2b40_len /\ valid_pub 3 pub = true) /\
+  (nano_decode blake2b valid_pub b32_dec s = Ok pub ->
+   valid_pub 3 pub = true /\ length pub = (ed25519_compr_len - 1)%nat /\
+   exists a pad, s = nano_prefix ++ a /\ length pad = length nano_pad_dec /\
+     b32_enc_nopad (Some nano_alphabet) (pad ++ pub ++ nano_checksum blake2b pub) = Ok (nano_pad_enc ++ a) /\
+     (pad = nano_pad_dec -> nano_encode blake2b b32_enc_nopad pub = Ok s)).
+Proof.
+  intros b vp s pub. split; [exact (Lemmas.AddrAcceptB32.nano_accepts_iff b vp b32_dec s pub)|
+                             exact (Lemmas.AddrAcceptB32.nano_accepted_partial b vp s pub)].
+Qed.
+Print Assumptions nano_decode_accepts_iff.
+
+(* "nano_111...1" (60) is the address; "nano_4111...1" is accepted: 16 first characters per address
+   (finding C10-NANO-PADBITS) *)
+Theorem nano_canonical_refuted : exists s1 s2 pub,
+  nano_encode zero_blake b32_enc_nopad pub = Ok s1 /\ s2 <> s1 /\
+  nano_decode zero_blake any_valid b32_dec s1 = Ok pub /\
+  nano_decode zero_blake any_valid b32_dec s2 = Ok pub.
+Proof. exact Lemmas.AddrAcceptB32.nano_canonical_refuted. Qed.
+Print Assumptions nano_canonical_refuted.
+
+(* Nimiq: spaces are free (str.replace(' ', '')); otherwise the encoder's text (20 bytes = 32 symbols) *)
+Theorem nim_decode_accepts_iff : forall s d,
+  (nim_decode b32_dec s = Ok d <->
+   exists body, filter (fun c => negb (c =? 32)) s = nim_prefix ++ nim_checksum body ++ body /\
+     length body = nim_hash_enc_len /\ forallb (fun c => memb c nim_alphabet) body = true /\
+     b32_dec (Some nim_alphabet) body = Ok d) /\
+  (nim_decode b32_dec s = Ok d ->
+   length d = nim_hash_len /\
+   exists body, b32_enc_nopad (Some nim_alphabet) d = Ok body /\
+     filter (fun c => negb (c =? 32)) s = nim_prefix ++ nim_checksum body ++ body).
+Proof.
+  intros s d. split; [exact (Lemmas.AddrAcceptB32.nim_accepts_iff b32_dec s d)|exact (Lemmas.AddrAcceptB32.nim_accepted_is_encoding s d)].
+Qed.
+Print Assumptions nim_decode_accepts_iff.
+
+(* ================================================================== Monero *)
+Section XmrStatements.
+  Variable keccak : list N -> list N.
+  Variable G : Type.
+  Variable pdec : list N -> option G.
+  Hypothesis keccak_len : forall x, length (keccak x) = 32%nat.
+  Notation xmr_decode_addr := (AddrXmr.decode_addr keccak G pdec).
+  Notation xmr_checksum := (AddrXmr.checksum keccak).
+  Notation key_valid := (EdLib.pub_is_valid G pdec).
+
+  (* payid = None: XmrAddrDecoder; payid = Some p: XmrIntegratedAddrDecoder.  NOTE the last clause of the first
+     statement: the part after the two keys may be EMPTY whatever payment id is expected.
+     Second: the standard decoder.  Third (xmr_integrated_decode_partial): the exact extra condition under which the
+     integrated decoder does what the format says -- the decoded address has the with-payment-id length. *)
+  Theorem xmr_addr_decode_accepts_iff : forall s net,
+    (forall payid out, xmr_decode_addr s net payid = Ok out <->
+     exists ps pv rest,
+       AddrXmr.b58x_decode s = Ok ((net ++ ps ++ pv ++ rest) ++ xmr_checksum (net ++ ps ++ pv ++ rest)) /\
+       length ps = 32%nat /\ length pv = 32%nat /\ key_valid ps = true /\ key_valid pv = true /\ out = ps ++ pv /\
+       (rest = [] \/ (length rest = xmr_payid_len /\ payid = Some rest))) /\
+    (forall out, xmr_decode_addr s net None = Ok out <->
+     exists ps pv, AddrXmr.b58x_decode s = Ok ((net ++ ps ++ pv) ++ xmr_checksum (net ++ ps ++ pv)) /\
+       length ps = 32%nat /\ length pv = 32%nat /\ key_valid ps = true /\ key_valid pv = true /\ out = ps ++ pv) /\
+    (forall p out dec, xmr_decode_addr s net (Some p) = Ok out -> AddrXmr.b58x_decode s = Ok dec ->
+     length dec = (length net + 2 * 32 + xmr_payid_len + xmr_addr_cklen)%nat ->
+     exists ps pv, dec = (net ++ ps ++ pv ++ p) ++ xmr_checksum (net ++ ps ++ pv ++ p) /\ length p = xmr_payid_len /\
+       length ps = 32%nat /\ length pv = 32%nat /\ key_valid ps = true /\ key_valid pv = true /\ out = ps ++ pv).
+  Proof.
+    intros s net. split; [intros payid out; exact (Lemmas.AddrAcceptXmr.decode_addr_accepts_iff keccak G pdec keccak_len s net payid out)|].
+    split; [intros out; exact (Lemmas.AddrAcceptXmr.decode_standard_accepts_iff keccak G pdec keccak_len s net out)|
+            intros p out dec; exact (Lemmas.AddrAcceptXmr.decode_integrated_partial keccak G pdec keccak_len s net p out dec)].
+  Qed.
+End XmrStatements.
+Print Assumptions xmr_addr_decode_accepts_iff.
+
+(* Full statement for XmrIntegratedAddrDecoder
+     xmr_decode_addr s net (Some p) = Ok out -> the decoded payload ends in the payment id p
+   is FALSE (finding C10-XMR-INTEG-LEN): the text of a STANDARD address (69 bytes: no room for a payment id) is
+   accepted for EVERY expected payment id.  Instance: constant-zero Keccak, every 32-byte string a key. *)
+Theorem xmr_integrated_payment_id_refuted : exists s net dec,
+  AddrXmr.encode_key Lemmas.AddrAcceptXmr.zero_keccak unit Lemmas.AddrAcceptXmr.all_keys (repeat 0 32) (repeat 0 32) net None = Ok s /\
+  AddrXmr.b58x_decode s = Ok dec /\ length dec = (length net + 2 * 32 + xmr_addr_cklen)%nat /\
+  forall p, AddrXmr.decode_addr Lemmas.AddrAcceptXmr.zero_keccak unit Lemmas.AddrAcceptXmr.all_keys s net (Some p) = Ok (repeat 0 64).
+Proof. exact Lemmas.AddrAcceptXmr.integrated_payment_id_refuted. Qed.
+Print Assumptions xmr_integrated_payment_id_refuted.
+
+(* ================================================================== Cardano Shelley *)
+(* header byte: type 0000 (payment key + stake key) resp. 1110 (reward) in the high nibble, network tag in the low *)
+Theorem ada_shelley_decode_accepts_iff : forall (b32dec : list N -> list N -> option (list N)) net s d, In net ada_nets ->
+  (decode_payment b32dec net s = Ok d <->
+   b32dec (net_hrp net) s = Some ([0 * 16 + net_tag net] ++ d) /\ length d = (28 + 28)%nat) /\
+  (decode_staking b32dec net s = Ok d <->
+   b32dec (net_stake_hrp net) s = Some ([14 * 16 + net_tag net] ++ d) /\ length d = 28%nat).
+Proof.
+  intros f net s d Hn. split; [exact (Lemmas.AddrAcceptAda.decode_payment_accepts_iff f net s d Hn)|
+                               exact (Lemmas.AddrAcceptAda.decode_staking_accepts_iff f net s d Hn)].
+Qed.
+Print Assumptions ada_shelley_decode_accepts_iff.
+
+(* on the Bech32 model above *)
+Theorem ada_shelley_accepted_is_encoding : forall net s d, In net ada_nets ->
+  (decode_payment Lemmas.AddrAcceptAda.bech32_dec_opt net s = Ok d ->
+   bech32_encode (net_hrp net) ([0 * 16 + net_tag net] ++ d) = Ok (py_lower s) /\ length d = 56%nat) /\
+  (decode_staking Lemmas.AddrAcceptAda.bech32_dec_opt net s = Ok d ->
+   bech32_encode (net_stake_hrp net) ([14 * 16 + net_tag net] ++ d) = Ok (py_lower s) /\ length d = 28%nat).
+Proof.
+  intros net s d Hn. split; [exact (Lemmas.AddrAcceptAda.shelley_payment_accepted_is_encoding net s d Hn)|
+                             exact (Lemmas.AddrAcceptAda.shelley_staking_accepted_is_encoding net s d Hn)].
+Qed.
+Print Assumptions ada_shelley_accepted_is_encoding.
+
+(* ================================================================== Cardano Byron (cbor2 is an oracle) *)
+Theorem ada_byron_decode_accepts_iff : forall (crc32 : list N -> N) (parse_outer : list N -> option (N * list N * N))
+    (parse_payload : list N -> option (list N * option (list N) * N)) (parse_bytes : list N -> option (list N)) s out,
+  AddrAdaByron.decode_addr crc32 parse_outer parse_payload parse_bytes s = Ok out <->
+  exists ser value rh attr1 enc,
+    AddrAdaByron.b58dec s = Ok ser /\ parse_outer ser = Some (ada_byron_payload_tag, value, crc32 value) /\
+    parse_payload value = Some (rh, attr1, ada_byron_type_pubkey) /\ length rh = ada_keyhash_len /\
+    match attr1 with Some v => parse_bytes v = enc /\ enc <> None | None => enc = None end /\
+    out = rh ++ Lemmas.AddrAcceptAda.enc_tail enc.
+Proof. exact Lemmas.AddrAcceptAda.byron_decode_accepts_iff. Qed.
+Print Assumptions ada_byron_decode_accepts_iff.
+
+(* with parsers that accept canonical CBOR only, accepted = the encoder's text for the returned hash and path *)
+Theorem ada_byron_accepted_partial : forall (crc32 : list N -> N) (parse_outer : list N -> option (N * list N * N))
+    (parse_payload : list N -> option (list N * option (list N) * N)) (parse_bytes : list N -> option (list N)),
+  (forall ser t v c, parse_outer ser = Some (t, v, c) -> ser = cbor_array [cbor_tag t (cbor_bytes v); cbor_uint c]) ->
+  (forall v rh a ty, parse_payload v = Some (rh, a, ty) ->
+     v = cbor_array [cbor_bytes rh; match a with Some x => cbor_map [(cbor_uint 1, cbor_bytes x)] | None => cbor_map [] end;
+                     cbor_uint ty]) ->
+  (forall x e, parse_bytes x = Some e -> x = cbor_bytes e) ->
+  forall s out, AddrAdaByron.decode_addr crc32 parse_outer parse_payload parse_bytes s = Ok out ->
+  exists rh enc, s = AddrAdaByron.b58enc (AddrAdaByron.addr_cbor crc32 (AddrAdaByron.payload_cbor rh enc ada_byron_type_pubkey)) /\
+    length rh = ada_keyhash_len /\ out = rh ++ Lemmas.AddrAcceptAda.enc_tail enc.
+Proof. exact Lemmas.AddrAcceptAda.byron_accepted_partial. Qed.
+Print Assumptions ada_byron_accepted_partial.
+
+(* without that hypothesis it is FALSE, already for parsers satisfying every law the C18 round-trip theorem assumes
+   of cbor2 (last clause: the lenient parser satisfies the outer law): s2 writes the CRC in a non-minimal head; s3 has
+   a byte after the CBOR item, which a parser that -- like cbor2.loads -- stops after the first item never sees
+   (finding C10-BYRON-TRAILING) *)
+Theorem ada_byron_canonical_refuted :
+  (exists s1 s2 s3 out,
+    AddrAdaByron.encode_key Lemmas.AddrAcceptAda.zero28 Lemmas.AddrAcceptAda.zero28 Lemmas.AddrAcceptAda.zero_crc [] [] None = s1 /\
+    s2 <> s1 /\ s3 <> s1 /\
+    AddrAdaByron.decode_addr Lemmas.AddrAcceptAda.zero_crc Lemmas.CborEnc.toy_parse_outer Lemmas.CborEnc.toy_parse_payload
+      Lemmas.CborEnc.toy_parse_bytes s1 = Ok out /\
+    AddrAdaByron.decode_addr Lemmas.AddrAcceptAda.zero_crc Lemmas.CborEnc.toy_parse_outer Lemmas.CborEnc.toy_parse_payload
+      Lemmas.CborEnc.toy_parse_bytes s2 = Ok out /\
+    AddrAdaByron.decode_addr Lemmas.AddrAcceptAda.zero_crc Lemmas.AddrAcceptAda.lenient_parse_outer Lemmas.CborEnc.toy_parse_payload
+      Lemmas.CborEnc.toy_parse_bytes s3 = Ok out) /\
+  (forall (crc : list N -> N) tag p, (length p < 4096)%nat -> tag < 2 ^ 64 -> crc p < 2 ^ 64 ->
+    Lemmas.AddrAcceptAda.lenient_parse_outer (cbor_array [cbor_tag tag (cbor_bytes p); cbor_uint (crc p)]) = Some (tag, p, crc p)).
+Proof. split; [exact Lemmas.AddrAcceptAda.byron_canonical_refuted|exact Lemmas.AddrAcceptAda.lenient_parse_outer_enc]. Qed.
+Print Assumptions ada_byron_canonical_refuted.
